@@ -68,7 +68,8 @@ func NewWithOptions(opts *Options) *OrefaFS {
 
 	vfs.nodes = make(nodes)
 	vfs.nodes[volumeName] = &node{
-		mode:  fs.ModeDir | 0o755,
+		mode:  fs.ModeDir,
+		perm:  0o755,
 		mtime: time.Now().UnixNano(),
 		uid:   0,
 		gid:   0,
